@@ -48,6 +48,9 @@ func ruleR01_1(c *Check) {
 	// the value waited for and returned is the one registered
 	for _, wt := range f.Sites(selCallOn(wait, txnMark)) {
 		call := wt.(*ast.CallExpr)
+		// the wait cannot be abandoned: any error it returns (e.g. an expired context) must stop the
+		// function, not be ignored — otherwise the timestamp is handed out while commits <= it are in flight
+		r.Check(w.errIsFatal(f, call), f, "a failed or abandoned wait never yields a timestamp", wt, "the error of WaitForMark can be ignored (not passed to y.Check, returned or tested with plain `err != nil`): readTs returns while a commit at or below it may still be in flight")
 		arg := w.Origin(f, call.Args[len(call.Args)-1])
 		r.Check(w.mentions(arg, next), f, "WaitForMark waits for the timestamp read", wt, "WaitForMark argument is "+short(w, arg))
 	}
